@@ -19,6 +19,8 @@ ASSUMPTIONS = ["the application passes a compression object created by jpeg_crea
 def classify(op, R):
     p = op.split(" ")
     r = R.split(" ")
+    if p[0] == "rstrows":
+        return "rstrows:" + p[3]
     if p[0] == "cparam":
         return "cparam:f%s:%s" % (p[1], ("err" + r[2]) if len(r) > 2 and r[1] == "err" else " ".join(r[3:]) if len(r) > 3 else R[:12])
     return "xcoef:p%s:m%s:t%s:%s" % (p[1], p[2], p[6], r[1] if len(r) > 1 else "?")
@@ -29,6 +31,10 @@ def gen_ops(rng, tier):
     ops = []
     for i in range(30000 if big else 4000):
         ops.append("cparam %d %d" % (rng.choice([0, 0, 0, 1, 2, 3, 4, 5, 6, 7]), rng.randrange(1 << 30)))
+    # restart interval given in MCU rows, around the 16-bit limit of the DRI segment (rows x MCUs per row = 65535, 65536, more)
+    for (w, h, rows) in ((2048, 2064, 255), (2048, 2064, 256), (2048, 2072, 257), (8, 40, 3), (4096, 1032, 128), (4104, 1040, 127)):
+        ops.append("rstrows %d %d %d 0" % (w, h, rows))
+    ops.append("rstrows 2048 2064 256 1")
     for prec in (8, 12):
         for mode in (0, 1, 2, 3):
             for val in (1023, -1023, 1024, 2047, -2048, 16383, 32767, -32768):
